@@ -2,11 +2,14 @@
 from .. import app, engine, fixlib
 from ..runner import Run
 
-PLAN = {"B2/53": 560, "B3/89": 320, "B4/83": 160, "N1/11": 720, "W1/2": 560, "S2": 400, "S3": 96, "I4/97": 240, "U1/7": 80, "H4/3": 160, "P2": 320, "R2/3": 500, "R3": 400, "K7": 400, "T4/5": 250, "Z1": 500}
+PLAN = {"B2/53": 392, "B3/89": 224, "B4/83": 112, "N1/11": 503, "W1/2": 392, "S2": 280, "S3": 67, "I4/97": 168, "U1/7": 56, "H4/3": 112, "P2": 224, "R2/3": 350, "R3": 280, "K7": 280, "T4/5": 175, "Z1": 350, "Q2": 280, "P3": 280, "E1/211": 210, "M3/3": 280, "L6": 280, "G2": 210, "H6": 140, "L7": 350}
 EVALUATOR = "vp.props.c09:ev"
+# second pass: documented configuration values of the fix-capable rules (rule alone), keyed `<universe>#cfg`
+PLAN_CFG = {"Z1#cfg": 280, "Q2#cfg": 175, "T4/5#cfg": 84, "L6#cfg": 175, "M3/3#cfg": 105, "N1/11#cfg": 210, "W1/2#cfg": 175, "B3/89#cfg": 105, "R3#cfg": 84, "H4/3#cfg": 56, "P3#cfg": 105, "G2#cfg": 210}
+EVALUATORS = {"#cfg": "vp.props.c09:ev_cfg"}
 RULE = (
     "documents = sub-lattices of the bounded universes that parse and scan cleanly; configurations per document: default rule set, up to 2 single fix-capable default rules "
-    "and 1 pair (chosen among the fix-capable rules that report on the document, by source hash); oracle: f=fix through main(): f(f(d))==f(d) byte for byte, the second run "
+    "and 1 pair (chosen among the fix-capable rules that report on the document, by source hash); second pass (`#cfg`): up to 3 documented non-default configuration values of one fix-capable rule, rule alone, on documents containing its construct; oracle: f=fix through main(): f(f(d))==f(d) byte for byte, the second run "
     "exits 0 / announces nothing, and scan(f(d)) under the same configuration has no failure from an enabled fix-capable rule; fix runs ending in an error are C15's (skipped, counted); "
     "non-trivial = f(d) != d; distinct by (source hash, configuration)"
 )
@@ -18,11 +21,25 @@ def ev(src, opts, rank):
     base = fixlib.scan_ok(src, [])
     if base is None:
         return "skip", "scan-error (C07's)", False, ()
+    return _judge(src, fixlib.configs_for(src, base))
+
+
+def ev_cfg(src, opts, rank):
+    """the same oracle under documented non-default configuration values of one fix-capable rule (rule alone)"""
+    if not fixlib.parses(src):
+        return "skip", "no-parse", False, ()
+    cfgs = fixlib.cfg_configs_for(src)
+    if not cfgs:
+        return "skip", "no configurable construct in the document", False, ()
+    return _judge(src, cfgs)
+
+
+def _judge(src, configs):
     _, _, fixable, _ = app.rule_table()
     problems = set()
     nt = False
     labels = []
-    for name, args, rules in fixlib.configs_for(src, base):
+    for name, args, rules in configs:
         kind = name.split(":")[0]
         f1 = fixlib.fix_once(src, args)
         if f1["error"]:
@@ -59,8 +76,9 @@ def main(tier, seed):
     run = Run("C09", tier, seed)
     run.regressions(replay)
     engine.run_universes(run, EVALUATOR, PLAN, tier, seed, chunk=40)
+    engine.run_universes(run, EVALUATORS["#cfg"], PLAN_CFG, tier, seed, chunk=40)
     return run.finish(RULE, assumptions=["fix runs that end in BadPluginFixError / plugin errors are not convergence failures (C15)", "pairs and singles are sampled per document by source hash, not enumerated"])
 
 
 def replay(case):
-    return engine.replay_doc(EVALUATOR, case)
+    return engine.replay_doc(EVALUATORS["#cfg"] if "#cfg" in str(case.get("universe", "")) else EVALUATOR, case)
